@@ -5,6 +5,7 @@ import ThruVerif.Gen.Consts
 import ThruVerif.Proofs.ProtoLM
 import ThruVerif.Proofs.FileWait
 import ThruVerif.Proofs.ProtoLMC
+import ThruVerif.Model.Sched
 import ThruVerif.Gen.Shapes
 /-!
 # C03 — Every transfer between healthy peers completes
@@ -497,3 +498,67 @@ theorem C03_source_filewait :
       "verifhook.Point(\"recv.reader.before_wait\", fileKey)"] := by decide
 
 end TV.FileWait
+
+namespace TV.Sched
+
+/-! ### the file scheduler never starves a pending file (`Model/Sched`, `HybridScheduler.Next`) -/
+
+/-- `Next` declines only when no medium or large file is pending and either no small file is pending or every small slot is busy -/
+theorem C03_scheduler_declines_only_when (cfg : Cfg) (fs : List F) (pick : Nat) (h : next cfg fs pick = none) :
+    pendingWeighted cfg fs = [] ∧ (pendingSmall cfg fs = [] ∨ activeSmall cfg fs ≥ cfg.smallSlots) := by
+  unfold next at h
+  simp only at h
+  split at h
+  · rename_i hc
+    have := argmin_some hc.2
+    split at h
+    · cases h
+    · rename_i hn; rw [hn] at this; cases this
+  · rename_i hc
+    refine ⟨?_, ?_⟩
+    · split at h
+      · cases h
+      · rename_i hn
+        apply Decidable.byContradiction
+        intro hne
+        have hl : 0 < (pendingWeighted cfg fs).length := List.length_pos_iff.mpr hne
+        have hlt : pick % (pendingWeighted cfg fs).length < (pendingWeighted cfg fs).length := Nat.mod_lt _ hl
+        rw [List.getElem?_eq_getElem hlt] at hn
+        cases hn
+    · by_cases hps : pendingSmall cfg fs = []
+      · exact Or.inl hps
+      · right
+        apply Decidable.byContradiction
+        intro hlt
+        exact hc ⟨by omega, hps⟩
+
+/-- **C03_scheduler_no_starvation.** While a file is pending and a small slot is free, `Next` hands out a file: whatever the
+sizes, the order of additions and removals, and however much time has passed (time does not enter: a pending file has never been
+scheduled, and aging looks only at files that have) -/
+theorem C03_scheduler_no_starvation (cfg : Cfg) (fs : List F) (pick : Nat) (f : F) (hf : f ∈ fs) (hp : f.started = false)
+    (hfree : activeSmall cfg fs < cfg.smallSlots) : (next cfg fs pick).isSome = true := by
+  cases hn : next cfg fs pick with
+  | some _ => rfl
+  | none =>
+    obtain ⟨hw, hs⟩ := C03_scheduler_declines_only_when cfg fs pick hn
+    exfalso
+    by_cases hsm : isSmall cfg f = true
+    · have : f ∈ pendingSmall cfg fs := by simp [pendingSmall, hf, hp, hsm]
+      rcases hs with hs | hs
+      · rw [hs] at this; cases this
+      · omega
+    · have : f ∈ pendingWeighted cfg fs := by simp [pendingWeighted, hf, hp, hsm]
+      rw [hw] at this; cases this
+
+open TV.Gen.Shapes in
+set_option maxRecDepth 16384 in
+/-- aging (`effectiveClass`) applies only to a file that has been scheduled before (`LastScheduledAt` set), and promotes large to
+medium, medium to small - a file never drops out of every class; pending files are the ones with `StartedAt` zero -/
+theorem C03_source_sched_aging :
+    sched_effective_class = ["class := s.classForRemaining(s.remainingForMeta(meta))",
+      "if !meta.LastScheduledAt.IsZero() && now.Sub(meta.LastScheduledAt) > s.cfg.AgingAfter { switch class { case classLarge: return classMedium case classMedium: return classSmall } }",
+      "return class"] ∧
+    sched_pending_small_ifs = ["!meta.StartedAt.IsZero()", "s.effectiveClass(meta, now) == class"] ∧
+    sched_pending_weighted_ifs = ["!meta.StartedAt.IsZero()", "eff == classMedium || eff == classLarge"] := by decide
+
+end TV.Sched
